@@ -425,6 +425,28 @@ func constStringParts(val ssa.Value) (parts []string, complete bool) {
 	return nil, false
 }
 
+// constStringPartsBound is constStringParts with parameters replaced by the constants bound to them.
+func constStringPartsBound(val ssa.Value, bind map[*ssa.Parameter]ssa.Value) (parts []string, complete bool) {
+	switch x := val.(type) {
+	case *ssa.Parameter:
+		if b, ok := bind[x]; ok {
+			return constStringParts(b)
+		}
+		return nil, false
+	case *ssa.BinOp:
+		if x.Op == token.ADD {
+			l, lc := constStringPartsBound(x.X, bind)
+			r, rc := constStringPartsBound(x.Y, bind)
+			if len(l) > 0 && len(r) > 0 && lc && rc {
+				// pieces of one text: joined without a separator
+				return []string{strings.Join(l, "") + strings.Join(r, "")}, true
+			}
+			return append(l, r...), lc && rc
+		}
+	}
+	return constStringParts(val)
+}
+
 // VarArgs unpacks a literal variadic argument list ([]any built by the compiler).
 func VarArgs(val ssa.Value) ([]ssa.Value, bool) {
 	if c, ok := val.(*ssa.Const); ok && c.Value == nil {
@@ -538,6 +560,9 @@ func (v *Vocab) stmtsIn(fn *ssa.Function, method string) []*StmtSite {
 	p := v.P
 	var out []*StmtSite
 	seen := map[*ssa.Function]bool{}
+	// bind: parameters of a storage-package helper read as the (constant) arguments of the call that reached it:
+	// a helper that takes the table / view name as a parameter is read once per caller with that name filled in
+	bind := map[*ssa.Parameter]ssa.Value{}
 	var visit func(f *ssa.Function, depth int)
 	visit = func(f *ssa.Function, depth int) {
 		if seen[f] || f.Blocks == nil {
@@ -558,6 +583,14 @@ func (v *Vocab) stmtsIn(fn *ssa.Function, method string) []*StmtSite {
 			if d.Static.Pkg != nil && p.InModule(d.Static.Pkg.Pkg.Path()) && depth < 2 {
 				// helper inside the storage package
 				if d.Static.Pkg == fn.Pkg {
+					cargs := ci.Common().Args
+					for i, prm := range d.Static.Params {
+						if i < len(cargs) {
+							if k, isConst := cargs[i].(*ssa.Const); isConst {
+								bind[prm] = k
+							}
+						}
+					}
 					visit(d.Static, depth+1)
 				}
 				continue
@@ -602,7 +635,7 @@ func (v *Vocab) stmtsIn(fn *ssa.Function, method string) []*StmtSite {
 			default:
 				continue
 			}
-			parts, complete := constStringParts(queryVal)
+			parts, complete := constStringPartsBound(queryVal, bind)
 			if len(parts) == 0 {
 				v.problem("%s: SQL text of %s is not constant", p.InstrPos(ci), method)
 				continue
